@@ -654,6 +654,18 @@ func (w *world) opCreateGroup() {
 		return
 	}
 	w.createFresh(name)
+	// a late joiner walks up to the read barrier before it acknowledges anything
+	if g := w.groups[name]; g.consumed < w.qack && !w.tooFar(g) && rapid.Bool().Draw(w.t, "lateJoinerWalksUp") {
+		target := w.qack + int64(rapid.IntRange(0, 2).Draw(w.t, "walkBeyond"))
+		if target > w.appended {
+			target = w.appended
+		}
+		for g.consumed < target {
+			w.consumeOnce(g, false)
+		}
+		w.class("late-joiner-walked-up")
+		w.logf("lateJoiner %s walks up -> consumed=%d ack=%d", name, g.consumed, g.ack)
+	}
 }
 
 func (w *world) createFresh(name string) {
